@@ -8,6 +8,45 @@ import os
 ROOT = os.path.dirname(os.path.dirname(os.path.abspath(__file__)))
 
 CHECKS = {
+    "C15": dict(
+        category="model_checking",
+        technique="breadth-first search over rewrite applications: from every seed text all applications of the layout "
+                  "rewrites of the statement to the depth bound, texts deduplicated, every reached text loaded and "
+                  "compared (differential) with the seed's outcome",
+        text="Seeds: accepted and rejected corpus texts, %define texts, configurations for the shipped logger and "
+             "basic-mapping components.  Rewrites: indent (tab-first, Unicode space) / trailing blanks on every line, "
+             "blank or comment line at every position, letter case of every section type (openers and closers "
+             "independently), section name, define name, $-reference and (basic-key containers) key, <t/> <-> "
+             "<t></t>, swap of adjacent lines of different keys.  Depth 2 (quick) / 3 and 4 along a reduced set "
+             "(thorough).  Same value tree (application objects compared by structural digest) or same rejection.",
+        note="Trusted: tree()/_otree digests.  Case rewrites touch ASCII letters only; key case only where the "
+             "container's key type is basic-key.",
+        design="DESIGN.md section 3, C15", engine="E3 deviate"),
+    "C05": dict(
+        category="model_checking",
+        technique="explicit-state breadth-first search over define/use/include histories against the real loader, "
+                  "state = (defines mapping, include depth) validated against the implementation by probing every "
+                  "name at each new state; every transition compared with a reference namespace model, loaded twice",
+        text="Histories up to depth 4 (quick) / 6 (thorough) over ~65 events: %define of 3 names in 2 spellings each "
+             "x {literal, empty, padded, $other, $$other, ${other}x}, illegal names, uses of every spelling, entering "
+             "and leaving %include-d resources (depth 2, served through the public openResource override).  Each "
+             "transition: the files are loaded twice against one schema object; outcome (values of the uses / "
+             "syntax error / replacement error with the name) equals the reference DefineSpace.",
+        note="Trusted: vz/ref/subst.py DefineSpace.  A refused %define is 'rejected as a syntax error' whichever of "
+             "ConfigurationSyntaxError / its subclass SubstitutionReplacementError is raised.",
+        design="DESIGN.md section 3, C05", engine="E2 bfs"),
+    "C06": dict(
+        category="model_checking",
+        technique="deviation-bounded exhaustive exploration of cut sets: for every seed text all sets of 1..n balanced "
+                  "line ranges (disjoint or nested) x placements are moved into real files and the include load is "
+                  "compared (differential) with the load of the original text; all unbalanced ranges must be rejected",
+        text="Seeds: accepted and rejected corpus texts (<= 7/9 lines) and ~800 %define texts (all 3-/4-line texts over "
+             "a define/use/section alphabet with three names).  Fragments in the same directory, a sub-directory "
+             "whose name holds a space, or the parent directory of the includer, referenced relatively; nested "
+             "fragments resolve against their own includer.  ZConfig.loadConfig(path) vs "
+             "loadConfigFile(StringIO(original)): equal tree or both rejected.",
+        note="Include arguments are URL-quoted relative references.  Remote URLs not covered (no network).",
+        design="DESIGN.md section 3, C06", engine="E3 deviate"),
     "C16": dict(
         category="model_checking",
         technique="explicit-state breadth-first search (C01 search, merge key extended by the shared handler list) over "
